@@ -306,6 +306,12 @@ type srcLen struct{ *pieceReader }
 
 func (s srcLen) Len() int { return len(s.b) - s.i }
 
+// srcLen0 has a Len that is only a hint about what is buffered right now (nothing, before the first Read): a reader with
+// a staging buffer filled on demand. Read still delivers everything.
+type srcLen0 struct{ *pieceReader }
+
+func (s srcLen0) Len() int { return 0 }
+
 type srcSize struct{ *pieceReader }
 
 func (s srcSize) Size() int64 { return int64(len(s.b)) }
@@ -324,7 +330,7 @@ type srcOpaque struct{ r io.Reader }
 
 func (s srcOpaque) Read(b []byte) (int, error) { return s.r.Read(b) }
 
-var c01SrcKinds = []string{"len", "size", "stat", "limited", "opaque", "size-unknown"}
+var c01SrcKinds = []string{"len", "size", "stat", "limited", "opaque", "size-unknown", "len-hint-0"}
 
 func c01Source(kind string, data []byte, P int) (io.Reader, *pieceReader) {
 	step := P/2 + 1
@@ -332,6 +338,8 @@ func c01Source(kind string, data []byte, P int) (io.Reader, *pieceReader) {
 	switch kind {
 	case "len":
 		return srcLen{pr}, pr
+	case "len-hint-0":
+		return srcLen0{pr}, pr
 	case "size":
 		return srcSize{pr}, pr
 	case "size-unknown":
@@ -1036,7 +1044,7 @@ var c01Prop = &reg.Property{
 	ID:    "C01",
 	Level: "model_checking",
 	Rule: "full Cartesian product: client options (MaxPacketUnchecked P x MaxConcurrentRequestsPerFile K x UseConcurrentReads x UseConcurrentWrites x UseFstat) x server kind {Server over a scratch file, RequestServer over a byte-slice handler} x allocator {off,on} (x max-tx-packet for the large sets) x file length L in [0, 2PK+P+1] x " +
-		"{every ReadAt(len in [0,L+2], off in [0,L+1]); Read loops with every buffer size 1..L+1; WriteTo after Seek to {0,1,P,L}; every WriteAt(len in [0,2PK+P+1], off in [0,F+1]) and Seek+Write+Write onto files of length F in {0,P,2P+1}; ReadFrom with six source kinds (Len, Size, Stat, LimitedReader, opaque, Size()=-1) and ReadFromWithConcurrency(c in {-1,0,1,2,K,K+1}) with every source length}; " +
+		"{every ReadAt(len in [0,L+2], off in [0,L+1]); Read loops with every buffer size 1..L+1; WriteTo after Seek to {0,1,P,L}; every WriteAt(len in [0,2PK+P+1], off in [0,F+1]) and Seek+Write+Write onto files of length F in {0,P,2P+1}; ReadFrom with seven source kinds (Len, Size, Stat, LimitedReader, opaque, Size()=-1, Len()=0 as a mere hint) and ReadFromWithConcurrency(c in {-1,0,1,2,K,K+1}) with every source length}; " +
 		"evaluations = File method calls compared with the byte-slice reference; distinct non-trivial = cases whose transfer spans more than one packet",
 	Assumptions: []string{
 		"free-running execution: each case runs under whatever schedule the Go runtime picks (reply reordering and interleavings are the subject of the scheduled jobs of this property)",
